@@ -13,3 +13,8 @@ func raceOn()  { runtime.RaceEnable() }
 func RaceAcquire(p unsafe.Pointer)      { runtime.RaceAcquire(p) }
 func RaceRelease(p unsafe.Pointer)      { runtime.RaceRelease(p) }
 func RaceReleaseMerge(p unsafe.Pointer) { runtime.RaceReleaseMerge(p) }
+
+// RaceOff/RaceOn bracket simulator-internal slice growth and copying: growslice and slicecopy
+// report their accesses to the detector even when the caller is go:norace.
+func RaceOff() { runtime.RaceDisable() }
+func RaceOn()  { runtime.RaceEnable() }
